@@ -1,6 +1,8 @@
 // C11 white-box driver for the arithmetic of src/source.c: #includes source.c (link with exclude_objs=("source.c.o",)).
 //   G start interval leeway cur_flags   _dispatch_timer_config_create on a fake timer record whose du_timer_flags = cur_flags
 //        -> clock target deadline interval | up1 mono1 wall1 up2 mono2 wall2   (clock readings before / after the call)
+//   J start interval leeway animation   _dispatch_interval_config_create (inputs that do not DISPATCH_CLIENT_CRASH)
+//        -> clock target deadline interval | clocks as for G
 //   H when      dispatch_after_f(when, q, ...) with the final dispatch_activate of _dispatch_after redirected to a recorder
 //        -> 0 (dropped) | 1 (plain dispatch_async: the function ran without a timer) | 2 clock target deadline interval flags
 //           followed by | up1 mono1 wall1 up2 mono2 wall2
@@ -43,6 +45,17 @@ int main(void)
 			dt.du_timer_flags = (uint8_t)fl; dt.du_is_timer = true;
 			clocks(c1);
 			dispatch_timer_config_t dtc = _dispatch_timer_config_create(start, itv, lee, &dt);
+			clocks(c2);
+			printf("%u %" PRIu64 " %" PRIu64 " %" PRIu64 " | ", (unsigned)dtc->dtc_clock, dtc->dtc_timer.target, dtc->dtc_timer.deadline, dtc->dtc_timer.interval);
+			free(dtc);
+		} else if (line[0] == 'J') {
+			// _dispatch_interval_config_create (non-crashing inputs only): J start interval leeway animation(0|1)
+			unsigned long long start, itv, lee, anim;
+			sscanf(line + 1, "%llu %llu %llu %llu", &start, &itv, &lee, &anim);
+			struct dispatch_timer_source_refs_s dt; memset(&dt, 0, sizeof dt);
+			dt.du_timer_flags = (uint8_t)(DISPATCH_TIMER_INTERVAL | (anim ? DISPATCH_INTERVAL_UI_ANIMATION : 0)); dt.du_is_timer = true;
+			clocks(c1);
+			dispatch_timer_config_t dtc = _dispatch_interval_config_create(start, itv, lee, &dt);
 			clocks(c2);
 			printf("%u %" PRIu64 " %" PRIu64 " %" PRIu64 " | ", (unsigned)dtc->dtc_clock, dtc->dtc_timer.target, dtc->dtc_timer.deadline, dtc->dtc_timer.interval);
 			free(dtc);
